@@ -7,6 +7,9 @@ package main
 //   raw-race        the same workload in the -race build with a completely
 //                   unsynchronised Processer (plain counters, plain append); the
 //                   hooks are synchronisation-free there
+//   raw-sustained   a paced sender keeps the inbox non-empty across several hundred
+//                   consecutive pops of ONE worker run (message n+1 is queued before n is
+//                   released), so that the worker's throughput-yield path is exercised
 //   engine-overlap  engine actors: in-flight counter over user + lifecycle
 //                   messages, concurrent senders, Stop/Poison callers, crashes with
 //                   restart delay while senders keep sending
@@ -39,6 +42,7 @@ func init() {
 			}
 			chaos := []string{"VERIF_HOOK=chaos", "VERIF_HOOK_PROB=35", "VERIF_HOOK_MAXUS=40"}
 			ms := []modeSpec{
+				{name: "raw-sustained", n: 96, perChild: 6, timeout: 20 * time.Minute, env: []string{"VERIF_HOOK=chaos", "VERIF_HOOK_PROB=10", "VERIF_HOOK_MAXUS=10"}},
 				{name: "raw-overlap", n: a, perChild: a / 16, timeout: 20 * time.Minute, env: chaos},
 				{name: "raw-race", n: b, perChild: b / 16, race: true, timeout: 30 * time.Minute, env: chaos},
 				{name: "engine-overlap", n: cN, perChild: cN / 16, timeout: 30 * time.Minute, env: chaos},
@@ -54,6 +58,8 @@ func init() {
 		},
 		run: func(c *caseCtx) caseResult {
 			switch {
+			case c.mode == "raw-sustained":
+				return c02Sustained(c)
 			case len(c.mode) >= 8 && c.mode[:8] == "raw-race":
 				return c02Raw(c, true)
 			case len(c.mode) >= 3 && c.mode[:3] == "raw":
@@ -190,11 +196,15 @@ type c02State struct {
 	m     map[string]int
 	incs  int
 	final chan struct{}
+	// incarnation numbers whose lifecycle handler panics (0 = none)
+	crashInit, crashStarted int
+	made                    int32
 }
 
 type c02Actor struct {
 	st   *c02State
 	race bool
+	inc  int
 }
 
 type crashMsg struct{ ID int }
@@ -217,6 +227,13 @@ func (a *c02Actor) Receive(c *actor.Context) {
 	case actor.Initialized:
 		if a.race {
 			st.incs++
+		}
+		if st.crashInit == a.inc {
+			panic("scripted crash in Initialized")
+		}
+	case actor.Started:
+		if st.crashStarted == a.inc {
+			panic("scripted crash in Started")
 		}
 	case crashMsg:
 		panic(fmt.Sprintf("scripted crash %d", m.ID))
@@ -242,7 +259,18 @@ func c02Engine(c *caseCtx, race bool) (res caseResult) {
 	crashes := r.Intn(3)
 	ending := r.Intn(3) // 0 none (final marker), 1 poison, 2 stop
 	delay := pick(r, 0, 200*time.Microsecond, 2*time.Millisecond)
-	pid := e.Spawn(func() actor.Receiver { return &c02Actor{st: st, race: race} }, "c02", actor.WithID("x"),
+	if crashes > 0 {
+		// two-step fault: the receiver produced by the first restart fails again while being started
+		switch r.Intn(3) {
+		case 0:
+			st.crashInit = 2
+		case 1:
+			st.crashStarted = 2
+		}
+	}
+	pid := e.Spawn(func() actor.Receiver {
+		return &c02Actor{st: st, race: race, inc: int(atomic.AddInt32(&st.made, 1))}
+	}, "c02", actor.WithID("x"),
 		actor.WithInboxSize(size), actor.WithMaxRestarts(10), actor.WithRestartDelay(delay))
 	var wg sync.WaitGroup
 	startCh := make(chan struct{})
@@ -336,5 +364,108 @@ func c02Engine(c *caseCtx, race bool) (res caseResult) {
 	if c.n < 2 || res.Verdict == vViolated {
 		res.Sample = map[string]any{"scenario": res.Desc}
 	}
+	return res
+}
+
+
+// pacedProc holds every message until the harness releases it.
+type pacedProc struct {
+	inflight int32
+	overlaps int32
+	entered  chan int
+	release  chan struct{}
+	order    []int
+	mu       sync.Mutex
+}
+
+func (p *pacedProc) Start()                           {}
+func (p *pacedProc) PID() *actor.PID                  { return nil }
+func (p *pacedProc) Send(*actor.PID, any, *actor.PID) {}
+func (p *pacedProc) Shutdown()                        {}
+func (p *pacedProc) Invoke(msgs []actor.Envelope) {
+	for _, e := range msgs {
+		if atomic.AddInt32(&p.inflight, 1) != 1 {
+			atomic.AddInt32(&p.overlaps, 1)
+		}
+		t := e.Msg.(*tmsg)
+		p.mu.Lock()
+		p.order = append(p.order, t.Seq)
+		p.mu.Unlock()
+		if t.Sender == 0 {
+			p.entered <- t.Seq
+			<-p.release
+		} else {
+			userPerturb()
+		}
+		atomic.AddInt32(&p.inflight, -1)
+	}
+}
+
+func c02Sustained(c *caseCtx) (res caseResult) {
+	r := c.rng
+	wd := watchdog(c.tier)
+	n := 350 + r.Intn(500) // more consecutive non-empty pops than the default throughput (300)
+	burst := 50 + r.Intn(200)
+	in := actor.NewInbox(pick(r, 1, 8, 1024))
+	p := &pacedProc{entered: make(chan int, 4), release: make(chan struct{})}
+	in.Start(p)
+	res.Desc = fmt.Sprintf("raw-sustained paced=%d burst=%d", n, burst)
+	in.Send(actor.Envelope{Msg: &tmsg{Sender: 0, Seq: 0}})
+	for i := 1; i <= n; i++ {
+		// message i is queued before message i-1 is released: every pop of this worker run finds the inbox non-empty
+		select {
+		case <-p.entered:
+		case <-time.After(wd):
+			res.inconclusive("paced message %d was not invoked within the watchdog (%s)", i-1, res.Desc)
+			return
+		}
+		if i < n {
+			in.Send(actor.Envelope{Msg: &tmsg{Sender: 0, Seq: i}})
+		} else {
+			// while the last paced message is held, a burst from two other goroutines piles up behind it
+			var wg sync.WaitGroup
+			for g := 1; g <= 2; g++ {
+				g := g
+				wg.Add(1)
+				go func() {
+					defer wg.Done()
+					for k := 0; k < burst; k++ {
+						in.Send(actor.Envelope{Msg: &tmsg{Sender: g, Seq: 100000*g + k}})
+					}
+				}()
+			}
+			wg.Wait()
+		}
+		p.release <- struct{}{}
+	}
+	total := n + 2*burst
+	if !waitFor(wd, func() bool { p.mu.Lock(); defer p.mu.Unlock(); return len(p.order) >= total }) {
+		p.mu.Lock()
+		got := len(p.order)
+		p.mu.Unlock()
+		res.inconclusive("only %d of %d messages invoked within the watchdog (%s)", got, total, res.Desc)
+		return
+	}
+	if o := atomic.LoadInt32(&p.overlaps); o > 0 {
+		res.violate("%d messages were invoked while another invocation of the same inbox was in flight (two workers on one inbox)", o)
+	}
+	p.mu.Lock()
+	lastPaced := -1
+	for _, s := range p.order {
+		if s < 100000 {
+			if s != lastPaced+1 {
+				res.violate("paced messages invoked out of order or twice: %d after %d", s, lastPaced)
+				break
+			}
+			lastPaced = s
+		}
+	}
+	p.mu.Unlock()
+	res.count("sustained_pops", int64(n))
+	res.Sig = sigHash("sustained", n/50, burst/50)
+	if c.n < 1 || res.Verdict == vViolated {
+		res.Sample = map[string]any{"scenario": res.Desc}
+	}
+	in.Stop()
 	return res
 }
